@@ -12,7 +12,6 @@ import (
 
 	"pgregory.net/rapid"
 
-	js "github.com/jsightapi/jsight-schema-go-library/notations/jschema"
 
 	"verif/gen"
 	"verif/hist"
@@ -89,22 +88,6 @@ func raceLogTail() string {
 	return ""
 }
 
-// buildWith builds a schema object whose added types are the given (possibly shared) objects.
-func buildWith(sp *hist.Spec, types map[string]*js.Schema) *hist.Obj {
-	var oo []js.Option
-	if sp.Schema.KeysOptional {
-		oo = append(oo, js.KeysAreOptionalByDefault())
-	}
-	s := js.New("root", sp.Schema.Schema, oo...)
-	add := "ok"
-	for _, ty := range sp.Schema.Types {
-		if err := s.AddType(ty.Name, types[ty.Name]); err != nil && add == "ok" {
-			add = "adderr"
-		}
-	}
-	return &hist.Obj{Spec: sp, S: s, AddRes: add}
-}
-
 func execute(t run.TB, c Case) {
 	old := runtime.GOMAXPROCS(c.Procs)
 	defer runtime.GOMAXPROCS(old)
@@ -121,17 +104,9 @@ func execute(t run.TB, c Case) {
 	before := raceLogSize()
 	// shared objects
 	shared := make([]*hist.Obj, len(c.Specs))
-	sharedTypes := make([]map[string]*js.Schema, len(c.Specs))
 	for i, sp := range c.Specs {
-		if c.ShareTypes {
-			sharedTypes[i] = map[string]*js.Schema{}
-			for _, ty := range sp.Schema.Types {
-				sharedTypes[i][ty.Name] = js.New(ty.Name, ty.Text)
-			}
-			shared[i] = buildWith(sp, sharedTypes[i])
-		} else {
-			shared[i] = hist.Build(sp)
-		}
+		// (with ShareTypes the private schemas of the goroutines add the type objects of this one)
+		shared[i] = hist.Build(sp)
 		if c.Precompiled {
 			hist.Do(shared[i], "Check")
 		}
@@ -152,7 +127,7 @@ func execute(t run.TB, c Case) {
 				if call.Private {
 					if private[call.Spec] == nil {
 						if c.ShareTypes {
-							private[call.Spec] = buildWith(c.Specs[call.Spec], sharedTypes[call.Spec])
+							private[call.Spec] = hist.BuildSharing(c.Specs[call.Spec], shared[call.Spec])
 						} else {
 							private[call.Spec] = hist.Build(c.Specs[call.Spec])
 						}
@@ -208,7 +183,7 @@ func TestConcurrentSharing(t *testing.T) {
 			Procs: rapid.SampledFrom([]int{2, 4, 16}).Draw(t, "procs")}
 		n := rapid.IntRange(1, 3).Draw(t, "specs")
 		for i := 0; i < n; i++ {
-			sp := hist.DrawSchemaSpec(t, fmt.Sprint("s", i), rapid.IntRange(0, 2).Draw(t, "family"))
+			sp := hist.DrawSchemaSpec(t, fmt.Sprint("s", i), rapid.SampledFrom([]int{0, 1, 2, 0, 1, 2, 4, 5}).Draw(t, "family"))
 			if c.ShareTypes && usesAllOf(sp) && os.Getenv("VERIF_C12_NOAVOID") == "" {
 				// recorded finding C12-shared-type-with-allOf: compiling a root rewrites the nodes of
 				// every added type in place; plans avoid sharing type objects that use allOf
